@@ -203,6 +203,11 @@ Proof.
   rewrite filter_length_split. reflexivity.
 Qed.
 
+Lemma has_heavy_spec (g : mgraph) n : has_heavy g n = true <-> exists m, In m (nbrs g n) /\ is_Hn g m = false.
+Proof.
+  unfold has_heavy. rewrite existsb_exists. split; intros (m & I & H); exists m; (split; [exact I|]); destruct (is_Hn g m); cbn in *; congruence.
+Qed.
+
 (** the label of every node after implicit_hydrogen (no well-formedness needed) *)
 Lemma ih_label (g : mgraph) pres n :
   label (implicit_hydrogen g pres) n =
@@ -258,7 +263,7 @@ Theorem implicit_hydrogen_spec (g : mgraph) (pres : list Z) : wf g ->
   (forall n, label g' n =
      match label g n with
      | None => None
-     | Some a => if is_H a then (if mem n (preserved g pres) then Some a else None)
+     | Some a => if is_H a then (if mem n (preserved g pres) || negb (has_heavy g n) then Some a else None)
                  else Some (set_hc a (g_hc a + count_h g n - count_pres g pres n))
      end) /\
   (* bonds: exactly the bonds between remaining atoms *)
@@ -272,19 +277,21 @@ Proof.
   assert (forall n, label (implicit_hydrogen g pres) n =
      match label g n with
      | None => None
-     | Some a => if is_H a then (if mem n (preserved g pres) then Some a else None)
+     | Some a => if is_H a then (if mem n (preserved g pres) || negb (has_heavy g n) then Some a else None)
                  else Some (set_hc a (g_hc a + count_h g n - count_pres g pres n))
      end) as HL.
   { intros n. rewrite ih_label. unfold ih_removed, is_Hn. destruct (label g n) as [a|] eqn:L; [|reflexivity].
     fold (is_H a). destruct (is_H a) eqn:Ha; cbn [andb].
-    - destruct (mem n (preserved g pres)); cbn [andb negb option_map]; [rewrite Ha|]; reflexivity.
+    - destruct (mem n (preserved g pres)); cbn [andb orb negb option_map]; [rewrite Ha; reflexivity|].
+      destruct (has_heavy g n); cbn [negb option_map]; [|rewrite Ha]; reflexivity.
     - cbn [option_map]. rewrite Ha. f_equal. f_equal.
       rewrite count_decs_heavy; [unfold count_pres; lia|exact W|]. unfold is_Hn. rewrite L. exact Ha. }
   split; [exact HL|]. split; [intros u v; apply ih_adj|].
   intros n a L Ha. rewrite HL, L, Ha. eexists. split; [reflexivity|]. cbn [set_hc g_hc g_el g_arom g_ch g_nb g_amap].
   split; [|repeat split].
   (* count_h of the result *)
-  assert (ih_removed g pres n = false) as Rn by (unfold ih_removed, is_Hn; rewrite L; fold (is_H a); rewrite Ha; reflexivity).
+  assert (is_Hn g n = false) as Hnn by (unfold is_Hn; rewrite L; exact Ha).
+  assert (ih_removed g pres n = false) as Rn by (unfold ih_removed; rewrite Hnn; reflexivity).
   assert (count_h (implicit_hydrogen g pres) n = count_pres g pres n) as ->; [|lia].
   unfold count_h, count_pres. f_equal.
   rewrite ih_nbrs, Rn. cbn [negb].
@@ -294,13 +301,19 @@ Proof.
     cbn [option_map]. fold (is_H b). destruct (is_H b) eqn:Hb; [exact Hb|]. cbn [set_hc g_el]. exact Hb. }
   rewrite (filter_ext (fun h => mem n (nbrs g h)) (fun h => mem h (nbrs g n))) by (intros h; apply mem_nbrs_sym).
   rewrite <- (filter_mem_swap _ _ (@nbrs_nodup _ _ g n W) (preserved_nodup g pres W)).
-  induction (nbrs g n) as [|m l IH]; [reflexivity|].
+  (* a hydrogen bonded to n has a non-hydrogen neighbour (n itself): it is removed iff it is not preserved *)
+  assert (Forall (fun m => is_Hn g m = true -> has_heavy g m = true) (nbrs g n)) as FH.
+  { apply Forall_forall. intros m Im Hm. unfold has_heavy. apply existsb_exists. exists n. split; [|rewrite Hnn; reflexivity].
+    apply mem_spec. rewrite mem_nbrs_sym. apply mem_spec. exact Im. }
+  remember (nbrs g n) as l eqn:El. clear El.
+  induction FH as [|m l Pm FH IH]; [reflexivity|].
   cbn [filter]. destruct (ih_removed g pres m) eqn:Rm; cbn [negb].
   - assert (mem m (preserved g pres) = false) as ->; [|exact IH].
-    unfold ih_removed in Rm. apply andb_true_iff in Rm. destruct Rm as [_ Rm]. destruct (mem m (preserved g pres)); [discriminate|reflexivity].
+    unfold ih_removed in Rm. apply andb_true_iff in Rm. destruct Rm as [Rm _]. apply andb_true_iff in Rm. destruct Rm as [_ Rm].
+    destruct (mem m (preserved g pres)); [discriminate|reflexivity].
   - cbn [filter]. rewrite (Hk m Rm). unfold ih_removed in Rm.
     destruct (is_Hn g m) eqn:Hm; cbn [andb] in Rm.
-    + destruct (mem m (preserved g pres)); [cbn [length]; rewrite IH; reflexivity|discriminate].
+    + rewrite (Pm eq_refl) in Rm. destruct (mem m (preserved g pres)); [cbn [length]; rewrite IH; reflexivity|discriminate].
     + assert (mem m (preserved g pres) = false) as ->; [|exact IH].
       destruct (mem m (preserved g pres)) eqn:M; [|reflexivity]. apply mem_spec in M.
       rewrite (preserved_isH g pres m W M) in Hm. discriminate.
